@@ -23,20 +23,20 @@ P = {
   "DESIGN.md §4 C20", TECH + "; Full enumeration of byte strings x charset x scheme x media type against an independent decoder"),
 
  "C17": (True,
-  "Every world inside the deviation bound (entry kinds x attributes x import forms x targets x local/remote, 3 option sets), every core-alphabet world, and every generated package graph carrying fast-check data is built twice with the real builder (All [+ fast check] then prune_types(), and CodeOnly) and the code-level views are compared; residues of type information and fast-check data in the pruned graph are checked. All worlds within the completed deviation bound are enumerated (the evidence states the bound).",
+  "Every world inside the deviation bound (entry kinds x attributes x import forms x targets x local/remote, 3 option sets), every core-alphabet world, and every generated package graph carrying fast-check data is built twice with the real builder (All [+ fast check] then prune_types(), and CodeOnly) and the code-level views are compared; residues of type information and fast-check data in the pruned graph are checked; worlds with generated WebAssembly modules are included. All worlds within the completed deviation bound are enumerated (the evidence states the bound).",
   "Differential oracle, no reference model. Errors compared by kind and specifier, not by referrer. Worlds violating the same-attribute proviso (also through redirects, roots, types header, pragma) are not generated; source-phase imports of otherwise-loaded specifiers are excluded here and reported under C01.",
   "DESIGN.md §4 C17", TECH + "; deviation-bounded enumeration of module worlds, differential oracle"),
  "C18": (True,
-  "For every world inside the deviation bound, every graph kind and every set of <= 2 module-holding specifiers as segment roots: each dependency of each module in the segment resolves and looks up as in the original, validation verdicts agree, for non-original roots the listing equals a direct build of those roots, and a segment of the segment equals the segment of the original (where the statement promises it).",
+  "For every world inside the deviation bound, every graph kind and every set of <= 2 module-holding specifiers as segment roots: each dependency of each module in the segment resolves and looks up as in the original, validation verdicts agree, for non-original roots the listing equals a direct build of those roots, and a segment of the segment equals the segment of the original (where the statement promises it); graphs with fast-check modules and with generated WebAssembly modules are segmented too.",
   "Differential oracle. Segment roots are specifiers that no import loads as an asset (same-attribute proviso; a root is an attribute-less import).",
   "DESIGN.md §4 C18", TECH + "; deviation-bounded enumeration of module worlds x graph kinds x segment roots, differential oracle"),
  "C02": (True,
-  "Structured placements (9 failure kinds x 6 edge kinds x 0..3 redirect hops x sibling x local/remote) are built with the real builder and validated under all 36 walk option sets and valid(); the verdict is compared both with the verdict known by construction and with an independent reachability computation over the graph's recorded dependencies (complete enumeration). Generic worlds inside the deviation bound are compared with the reachability reference.",
+  "Structured placements (9 failure kinds x 6 edge kinds x 0..3 redirect hops x sibling x local/remote) are built with the real builder and validated under all 36 walk option sets and valid(); the verdict is compared both with the verdict known by construction and with an independent reachability computation over the graph's recorded dependencies (complete enumeration). Generic worlds inside the deviation bound are compared with the reachability reference; graphs that carry fast-check modules and graphs with generated WebAssembly modules (verdict known by construction) are validated under all 36 option sets.",
   "The reachability reference reads Module::dependencies / redirects / imports through the public API. A root of unknown media type is (leniently) JavaScript and not counted as a failure; the resolution of a configured import itself is outside the statement.",
   "DESIGN.md §4 C02", TECH + "; Full enumeration of failure placements + deviation-bounded worlds, oracle = construction ground truth and reachability reference"),
  "C15": (True,
-  "Every graph built from a world inside the deviation bound is walked from every root set of <= 2 world specifiers under all 36 option sets, plain and with skip_previous_dependencies() after each single entry / every entry; yielded sets (no duplicates) and keyed error listings are compared with a set-based reference fixpoint. A further part walks graphs that carry fast-check modules (generated packages after build_fast_check_type_graph, with failing imports that only function bodies use) under all 36 option sets incl. prefer_fast_check_graph.",
-  "Reference fixpoint written over the public API (serialised slot table, redirects, imports, dependencies). Generic worlds have no fast-check modules; the fast-check part supplies them.",
+  "Every graph built from a world inside the deviation bound is walked from every root set of <= 2 world specifiers under all 36 option sets, plain and with skip_previous_dependencies() after each single entry / every entry; yielded sets (no duplicates) and keyed error listings are compared with a set-based reference fixpoint. A further part walks graphs that carry fast-check modules (generated packages after build_fast_check_type_graph, with failing imports that only function bodies use) under all 36 option sets incl. prefer_fast_check_graph, and graphs with generated WebAssembly modules likewise.",
+  "Reference fixpoint written over the public data (serialised slot table, redirects, imports, Module::dependencies(), the fast_check field of JS modules - not through dependencies_prefer_fast_check()). Generic worlds have no fast-check modules; the fast-check part supplies them.",
   "DESIGN.md §4 C15", TECH + "; deviation-bounded worlds x all walk options x root sets x skip sets against a reference fixpoint"),
  "C19": (True,
   "Every history of up to 3 (quick) / 4 (thorough) operations over {build(r0), build(r1), build(r0,r1), build(r0) with a configured type import, edit+reload(m) by the module's own specifier or by a recorded redirecting specifier} is replayed on a live graph for every world (generic worlds and worlds around redirect chains of 1-3 hops; one alternative import list / repaired variant per module; graph kind as a choice) inside the deviation bound; after each operation the live graph is compared with a from-scratch build of the roots so far on the current sources, rebuilds of known roots must be no-ops, and unreachable leftovers must be untouched.",
@@ -55,7 +55,7 @@ P = {
   "The scripted loader verifies presented checksums like a real cache. prefer_cached_jsr_versions is off. One world; assignments bounded by deviations from all-honest/empty-lockfile.",
   "DESIGN.md §4 C05", TECH + "; deviation-bounded enumeration of lockfile x tamper assignments with a call-log monitor"),
  "C01": (True,
-  "Every world inside the bound (deviation-bounded generic worlds over all entry kinds, 22 import forms, special targets, attributes, redirects, local/remote, types header; plus the complete enumeration of core-alphabet worlds with <= 3 edges) is built under 3 graph kinds x 10 option sets (all combinations of skip_dynamic_deps x is_dynamic x unstable text/bytes; custom resolver with resolve_types and default JSX import source + npm resolver + jsr passthrough + configured import; redirects seeded from the lockfile) and compared with (1) reference rules deriving each module's recorded dependencies from the renderer's record of what it wrote, (2) the least closure of the roots under the follow rules, computed over the reference dependencies, (3) the loader call log (single content load per specifier, redirects recorded), (4) entry kinds fixed by the world.",
+  "Every world inside the bound (deviation-bounded generic worlds over all entry kinds, 22 import forms, special targets, attributes, redirects, local/remote, types header; plus the complete enumeration of core-alphabet worlds with <= 3 edges) is built under 3 graph kinds x 10 option sets (all combinations of skip_dynamic_deps x is_dynamic x unstable text/bytes; custom resolver with resolve_types and default JSX import source + npm resolver + jsr passthrough + configured import; redirects seeded from the lockfile) and compared with (1) reference rules deriving each module's recorded dependencies from the renderer's record of what it wrote, (2) the least closure of the roots under the follow rules, computed over the reference dependencies, (3) the loader call log (single content load per specifier, redirects recorded), (4) entry kinds fixed by the world. Two further complete parts: template-literal dynamic imports expanded against an in-memory directory tree (18 templates x 2 importing modules x 3 graph kinds) and generated WebAssembly binaries with <= 3 imports of every import kind.",
   "The reference rules (about 25, each mirroring a sentence of the statement and anchored in graph.rs) are part of the trusted base. Worlds outside the same-attribute proviso are not generated; redirect cycles are C14's.",
   "DESIGN.md §4 C01", TECH + "; deviation-bounded + complete core enumeration of module worlds against a reference model of declared dependencies and closure"),
  "C08": (True,
